@@ -62,6 +62,15 @@ pub fn props_equiv(a: &[Prop], b: &[Prop]) -> bool {
     x == y && ua == ub
 }
 
+/// Hex for traces: long buffers are abbreviated (first 48 and last 8 bytes).
+pub fn hex_short(b: &[u8]) -> String {
+    if b.len() <= 96 {
+        hex(b)
+    } else {
+        format!("{}..({} bytes)..{}", hex(&b[..48]), b.len(), hex(&b[b.len() - 8..]))
+    }
+}
+
 pub fn hex(b: &[u8]) -> String {
     let mut s = String::with_capacity(b.len() * 2);
     for x in b {
